@@ -353,6 +353,10 @@ def run_case(spec, j):
     if isinstance(plan[step], tuple) or not fitted:
       op = 'fit'
       forced = plan[step][1] if isinstance(plan[step], tuple) else 0
+    elif step == 1 and spec['variant'] % 2 == 1:
+      # a pickle round trip between two fits (parameters come back as equal
+      # but different objects)
+      op = 'pickle'
     else:
       choices = ['fit', 'fit', 'transform', 'pair_distance', 'get_metric',
                  'get_M', 'set_params', 'clone', 'pickle', 'repeat-fit']
